@@ -1,6 +1,8 @@
 package props
 
 import (
+	"bytes"
+	"context"
 	"crypto/sha256"
 	"encoding/hex"
 	"encoding/json"
@@ -10,6 +12,7 @@ import (
 	"path/filepath"
 	"strings"
 	"sync"
+	"time"
 
 	"github.com/aml-org/amf-custom-validator/internal/validator"
 	"github.com/aml-org/amf-custom-validator/pkg"
@@ -43,6 +46,48 @@ func OneShot(profilePath, dataPath string, cfg int) {
 		out["report"] = rep
 	}
 	enc, _ := json.Marshal(out)
+	os.Stdout.Write(enc)
+}
+
+// C06Conc is the child process of the concurrent phase: the report alone, then 8 goroutines x rounds; prints JSON.
+func C06Conc(profilePath, dataPath string, rounds int) {
+	p, _ := os.ReadFile(profilePath)
+	d, _ := os.ReadFile(dataPath)
+	rc := config.DefaultReportConfiguration()
+	one := func() string {
+		o, err := pkg.ValidateWithConfiguration(string(p), string(d), false, nil, clockA, rc)
+		if err != nil {
+			return "error: " + err.Error()
+		}
+		return o
+	}
+	ref := one()
+	diffs := make([]string, 8)
+	var wg sync.WaitGroup
+	for w := 0; w < 8; w++ {
+		wg.Add(1)
+		go func(w int) {
+			defer wg.Done()
+			defer func() {
+				if r := recover(); r != nil {
+					diffs[w] = fmt.Sprintf("panic: %v", r)
+				}
+			}()
+			for k := 0; k < rounds; k++ {
+				if o := one(); o != ref {
+					diffs[w] = firstDiff(ref, o)
+				}
+			}
+		}(w)
+	}
+	wg.Wait()
+	out := []string{}
+	for _, x := range diffs {
+		if x != "" {
+			out = append(out, x)
+		}
+	}
+	enc, _ := json.Marshal(map[string]any{"Ref": ref, "Diffs": out})
 	os.Stdout.Write(enc)
 }
 
@@ -138,6 +183,35 @@ validations:
         ex.name:
           exactCount: 1
 `
+	// alternations nested in alternations, followed by further steps (the traversal forks more than once)
+	ps["nested-alternation-paths"] = `#%Validation Profile 1.0
+profile: Nested alternations
+prefixes:
+  ex: http://example.org/ns#
+  zz: http://example.org/zz#
+violation:
+  - v1
+warning:
+  - v2
+validations:
+  v1:
+    targetClass: ex.Thing
+    message: v1
+    propertyConstraints:
+      ( ( ex.child / ( ex.name | zz.other ) ) | ex.friend ) / ex.name:
+        minCount: 1
+      ( ex.child | ( zz.friend / ( ex.child | zz.other ) ) ) / ( ex.name | zz.other ) / ex.name:
+        maxCount: 2
+  v2:
+    targetClass: ex.Thing
+    message: v2
+    propertyConstraints:
+      ex.child / ( ( ex.a | ex.b ) | ( ex.c / ( ex.d | ex.e ) ) ) / ex.name:
+        nested:
+          propertyConstraints:
+            ( ex.name | ( zz.other / ( ex.a | ex.b ) ) ) / ex.c:
+              maxCount: 0
+`
 	// more validations than any fixture has (a translator that treats large profiles differently must still be deterministic)
 	{
 		var b strings.Builder
@@ -172,7 +246,7 @@ validations:
 
 func C06(e *core.Env) {
 	res := e.Res
-	res.Rule = "cases = (profile, data): generated Rego and report (fixed clock) computed by N fresh processes (quick 10, thorough 40), by repeated calls in one process, and by 8 goroutines at once; all bytes must be identical; profiles: several quantified constraints and properties per propertyConstraints map, several prefixes incl. a redeclared built-in one, deep nesting, 48 validations, repository fixtures; a history of 10 validations cycling through 4 report configurations (sharing / differing in each field) against the fresh-process report of each configuration; data: failing documents with lexical source maps, with TWO source-information nodes, with several results per level; " +
+	res.Rule = "cases = (profile, data): generated Rego and report (fixed clock) computed by N fresh processes (quick 10, thorough 40), by repeated calls in one process, and by 8 goroutines at once; all bytes must be identical; profiles: several quantified constraints and properties per propertyConstraints map, several prefixes incl. a redeclared built-in one, deep nesting, alternations nested in alternations followed by further steps, 48 validations, repository fixtures; a profile relying on a built-in prefix before / after a profile that rebinds it, against the fresh-process report; a history of 10 validations cycling through 4 report configurations (sharing / differing in each field) against the fresh-process report of each configuration; data: failing documents with lexical source maps, with TWO source-information nodes, with several results per level; " +
 		"non-trivial = the report has results; distinct by (profile, data, mode)"
 	self, _ := os.Executable()
 	g := RandomEdgeGraph(e.Rand, 5, []string{"a", "b", "c"}, 0.4)
@@ -259,35 +333,35 @@ func C06(e *core.Env) {
 				}
 			}
 			res.Case(pname+"|"+dname+"|repeat", strings.Contains(refs, "\"result\""))
-			var cwg sync.WaitGroup
-			diffs := make([]string, 8)
-			for w := 0; w < 8; w++ {
-				cwg.Add(1)
-				go func(w int) {
-					defer cwg.Done()
-					defer func() {
-						if r := recover(); r != nil {
-							diffs[w] = fmt.Sprintf("panic: %v", r)
-						}
-					}()
-					for k := 0; k < e.Pick(3, 10); k++ {
-						o, err := pkg.ValidateWithConfiguration(p, d, false, nil, clockA, rc)
-						if err != nil {
-							o = "error: " + err.Error()
-						}
-						if o != refs {
-							diffs[w] = firstDiff(refs, o)
-						}
+			// 8 goroutines at once, in a child process: a shared map written concurrently ends the process with a fatal error
+			// that cannot be recovered, and must be reported as what it is
+			{
+				ctx, cancel := context.WithTimeout(context.Background(), 300*time.Second)
+				cmd := exec.CommandContext(ctx, self, "c06conc", pf, df, fmt.Sprint(e.Pick(3, 10)))
+				var so, se bytes.Buffer
+				cmd.Stdout, cmd.Stderr = &so, &se
+				cerr := cmd.Run()
+				cancel()
+				var cr struct {
+					Ref   string
+					Diffs []string
+				}
+				if cerr != nil || json.Unmarshal(so.Bytes(), &cr) != nil {
+					replay["mode"] = "8 goroutines at once (child process)"
+					replay["stderr_head"] = core.Trunc(se.String(), 1500)
+					res.Violate("impl-violates-property", "the process ends abnormally when the same inputs are validated by 8 goroutines at once ("+pname+", "+dname+"): "+core.Trunc(firstLineWith(se.String(), "fatal error", "panic:"), 160), replay)
+				} else {
+					if cr.Ref != refs {
+						replay["mode"] = "child process vs this process"
+						replay["first_diff_line"] = firstDiff(refs, cr.Ref)
+						res.Violate("impl-violates-property", "the report differs between two processes ("+pname+", "+dname+")", replay)
 					}
-				}(w)
-			}
-			cwg.Wait()
-			for w, df := range diffs {
-				if df != "" {
-					replay["mode"] = fmt.Sprintf("8 goroutines at once (worker %d)", w)
-					replay["first_diff_line"] = df
-					res.Violate("impl-violates-property", "concurrent validation of the same inputs gives different bytes ("+pname+", "+dname+")", replay)
-					break
+					for _, df := range cr.Diffs {
+						replay["mode"] = "8 goroutines at once"
+						replay["first_diff_line"] = df
+						res.Violate("impl-violates-property", "concurrent validation of the same inputs gives different bytes ("+pname+", "+dname+")", replay)
+						break
+					}
 				}
 			}
 			res.Case(pname+"|"+dname+"|concurrent", strings.Contains(refs, "\"result\""))
@@ -295,6 +369,43 @@ func C06(e *core.Env) {
 			if pname == "many-quantified" && dname == "pool-bad" {
 				res.Sample(map[string]any{"profile": pname, "data": dname, "fresh_processes": n, "rego_sha": sha(first.Rego), "report_sha": sha(first.Report)})
 			}
+		}
+	}
+	// profile histories: the report of a profile that relies on a built-in prefix, made after a profile that binds that
+	// prefix name to something else was validated, equals the report a fresh process makes
+	{
+		pB := "#%Validation Profile 1.0\nprofile: Core Prefix\nviolation:\n  - named\nvalidations:\n  named:\n    targetClass: core.Thing\n    message: \"needs a name, has {{core.name}}\"\n    propertyConstraints:\n      core.name:\n        minCount: 1\n"
+		dB := `{"@graph":[{"@id":"http://example.org/d#a","@type":"http://a.ml/vocabularies/core#Thing"},{"@id":"http://example.org/d#b","@type":"http://a.ml/vocabularies/core#Thing","http://a.ml/vocabularies/core#name":"n"},{"@id":"http://example.org/d#c","@type":"http://other.org/core#Thing"}]}`
+		pA := "#%Validation Profile 1.0\nprofile: Other\nprefixes:\n  core: http://other.org/core#\n  data: http://other.org/data#\nviolation:\n  - named\nvalidations:\n  named:\n    targetClass: core.Thing\n    message: other\n    propertyConstraints:\n      data.name:\n        minCount: 1\n"
+		pf := filepath.Join(e.Scratch, "c06p.yaml")
+		df := filepath.Join(e.Scratch, "c06d.jsonld")
+		os.WriteFile(pf, []byte(pB), 0o644)
+		os.WriteFile(df, []byte(dB), 0o644)
+		out, err := exec.Command(self, "oneshot", pf, df).Output()
+		var m map[string]string
+		if err != nil || json.Unmarshal(out, &m) != nil {
+			res.Violate("harness-error", fmt.Sprintf("fresh process failed: %v", err), map[string]any{"no_failing_input_found": true, "broken": "oneshot subprocess"})
+		} else {
+			run := func(p, d string) string {
+				o, err := pkg.ValidateWithConfiguration(p, d, false, nil, clockA, rc)
+				if err != nil {
+					return "error: " + err.Error()
+				}
+				return o
+			}
+			first := run(pB, dB)
+			run(pA, dB)
+			pkg.CompileProfile(pA, false, nil)
+			second := run(pB, dB)
+			for i, o := range []string{first, second} {
+				if o != m["report"] {
+					res.Violate("impl-violates-property", []string{"the report of a profile that relies on a built-in prefix differs from a fresh process's", "the report of a profile that relies on a built-in prefix differs from a fresh process's after another profile that rebinds that prefix was validated"}[i],
+						map[string]any{"profile": pB, "data": dB, "other_profile_validated_before": pA, "first_diff_line": firstDiff(m["report"], o), "mode": "profile history"})
+					break
+				}
+			}
+			res.Case("profile-history|builtin-prefix", strings.Contains(first, "\"result\""))
+			res.Count("stream=profile-history")
 		}
 	}
 	// configuration histories: the report for (inputs, configuration) made after other configurations were used equals
